@@ -13,13 +13,13 @@ Open Scope Z_scope.
 
 (* ---- recycling ---- *)
 (* after the is_closed check each method sends exactly: nothing / Query "" / Query <clean-up script>
-   / Query <custom sql> (sql ids 0, 1, 10+k), whatever the server is scripted to answer *)
+   / Query <custom sql> (sql ids 0, 1, custom_sql k: 10+k, and 0 for the empty custom text), whatever the server is scripted to answer *)
 Theorem c16_recycle_msgs_per_method : forall cn,
   closed cn = false ->
   snd (fst (recycle MFast cn)) = []
   /\ snd (fst (recycle MVerified cn)) = [MQuery 0]
   /\ snd (fst (recycle MClean cn)) = [MQuery 1]
-  /\ forall k, snd (fst (recycle (MCustom k) cn)) = [MQuery (10 + k)].
+  /\ forall k, snd (fst (recycle (MCustom k) cn)) = [MQuery (custom_sql k)].
 Proof. exact recycle_msgs_exact. Qed.
 
 (* a closed client is rejected and nothing is sent *)
@@ -107,6 +107,15 @@ Theorem c16_cache_concurrent_miss : forall cn k,
   /\ find k (cch cn') = Some (nparse cn + 1)
   /\ ccnt (cch cn') = ccnt (cch cn) + 1.
 Proof. exact prepare2_miss. Qed.
+
+(* the Transaction wrappers (transaction, nested transaction, savepoint, build_transaction) use
+   the client's own cache: result, cache and all clients are exactly those of the direct call *)
+Theorem c16_transaction_wrappers_share_cache : forall c s w x k s' r,
+  step c s (LPrepVia w x k) = Some (s', r) ->
+  exists s0, step c s (LPrep x k) = Some (s0, r)
+    /\ conns s' = conns s0 /\ out s' = out s0 /\ idle s' = idle s0 /\ taken s' = taken s0
+    /\ registry s' = registry s0.
+Proof. exact via_is_direct. Qed.
 
 (* ---- registry ---- *)
 (* Composed statement with the pool's detach discipline as an explicit hypothesis: [grun ginit h =
@@ -200,3 +209,4 @@ Print Assumptions c16_registry_owned_or_pending.
 Print Assumptions c16_registry_never_again.
 Print Assumptions c16_registry_model.
 Print Assumptions c16_registry_reach.
+Print Assumptions c16_transaction_wrappers_share_cache.
